@@ -67,6 +67,12 @@ pub fn case_ops(scratch: &Path, meta: usize, id: &str, seed: u64, len: usize, po
     let cfg = GenCfg { reopen_pols: pols.to_vec(), big_weight: 4 + rng.below(8), max_queues: 1 + rng.below(5) as usize, ..Default::default() };
     r.apply(&Op::Open(pol));
     r.apply(&Op::State);
+    if rng.chance(1, 3) {
+        // idle queues with long names from the start: their position entries dominate GC passes
+        for _ in 0..(1 + rng.below(2)) {
+            r.apply(&Op::Create(long_name(&mut rng)));
+        }
+    }
     let n = len / 2 + rng.below(len as u64) as usize;
     for _ in 0..n {
         if r.dead {
